@@ -184,6 +184,11 @@ func shapeKey(v Value) string {
 		if x.opaque {
 			return "so"
 		}
+		// fully concrete strings keep their identity (merging them bytewise would make later path
+		// manipulation symbolic); strings with symbolic bytes merge bytewise per length
+		if cs, ok := strConcrete(x); ok && len(cs) > 0 {
+			return "sc:" + cs
+		}
 		return fmt.Sprintf("s%d", len(x.b))
 	case *Ptr:
 		if x.sym != nil {
